@@ -3,7 +3,8 @@
 # in scratch worktrees of /repo (VERIF_REPO), never touching /repo itself. Writes seeded/RESULTS.tsv and updates meta.json detected_by.
 cd /verif || exit 2
 IDS=${@:-$(ls seeded | grep -E '^C[0-9]+-')}
-OUT=/verif/seeded/RESULTS.tsv
+SEED=${MUT_SEED:-1}
+OUT=/verif/seeded/RESULTS.tsv; [ "$SEED" != 1 ] && OUT=/verif/seeded/RESULTS-seed$SEED.tsv
 TMP=$(mktemp -d /tmp/mutmx.XXXX)
 # the checks run from a snapshot of the committed /verif, so that the working tree may be edited meanwhile
 VSNAP=$TMP/verif; mkdir -p $VSNAP; git -C /verif archive HEAD | tar -x -C $VSNAP
@@ -14,12 +15,12 @@ run_one() {
   if ! git -C $wt apply /verif/seeded/$id/patch.diff 2>/dev/null && ! git -C $wt apply --3way /verif/seeded/$id/patch.diff 2>/dev/null; then
     echo -e "$id\t$prop\tPATCH-DOES-NOT-APPLY\t-"; git -C /repo worktree remove --force $wt; return; fi
   log=$TMP/$id.log
-  VERIF_REPO=$wt VERIF_EVIDENCE_DIR=$TMP/ev-$id VERIF_REPLAY_DIR=$TMP/rp-$id $VSNAP/check $prop --tier quick > $log 2>&1; rc=$?
+  VERIF_REPO=$wt VERIF_EVIDENCE_DIR=$TMP/ev-$id VERIF_REPLAY_DIR=$TMP/rp-$id $VSNAP/check $prop --tier quick --seed $SEED > $log 2>&1; rc=$?
   first=$(grep -A1 '^VIOLATION' $log | grep monitor= | head -1 | sed 's/^ *//' | cut -c1-160)
   echo -e "$id\t$prop\texit=$rc\t${first:-$(grep -E 'ERROR|INCONCLUSIVE' $log | head -1 | cut -c1-120)}"
   git -C /repo worktree remove --force $wt
 }
-export -f run_one; export TMP
+export -f run_one; export TMP SEED
 printf '%s\n' $IDS | xargs -P 3 -I{} bash -c 'run_one {}' | sort > $OUT.part
 # merge: rows of the ids just run replace the old ones
 touch $OUT; python3 - $OUT $OUT.part <<'PY'
